@@ -164,7 +164,20 @@ myth_thread_t verif_queue_pop(myth_thread_queue_t q) {
   if (g_queue_pops < 2) g_queue_pops++;
   return nondet_bool() ? &NEXT : (myth_thread_t)0;
 }
-void verif_tls_fini(myth_tls_tree_t * t, myth_tls_key_allocator_t * ka) { }   /* C11 */
+/* the destructors of thread-specific values (C11) are user code: they may yield or block, so the finishing thread may
+   come back from them on ANOTHER worker -- whatever was read from the old worker's descriptor before is stale then */
+int g_fini_migrated;
+void verif_tls_fini(myth_tls_tree_t * t, myth_tls_key_allocator_t * ka) {
+  if (nondet_bool()) {
+    myth_running_env_t from = cur_env();
+    myth_thread_t me = from->this_thread;
+    g_worker_rank = 1 - g_worker_rank;
+    myth_running_env_t to = cur_env();
+    to->this_thread = me; if (me) me->env = to;
+    from->this_thread = nondet_bool() ? &NEXT : (myth_thread_t)0;       /* the old worker runs something else now */
+    g_fini_migrated = 1;
+  }
+}
 
 /* ---------------------------------------------------------------- set-up */
 static void setup(int role) {
